@@ -67,6 +67,7 @@ def worker_main(argv):
     mod = importlib.import_module("vf.props." + pid)
     specs = json.load(open(os.path.join(workdir, "plan.json")))
     rec = Recorder(pid, tier, seed, idx)
+    rec.classifier = getattr(mod, "classify", None)
     try:
         mod.run_shard(specs[idx], rec)
     except Exception:
@@ -204,9 +205,12 @@ def main(argv=None):
             print("VIOLATION property=%s replay=%s" % (pid, os.path.relpath(path, VERIF)))
             print("  what: %s" % str(w.get("what"))[:600])
         exit_code = 1
-    elif rec.n_violations > n_kept:
-        # more violations than kept witnesses, all kept ones known: remaining ones are unclassified
-        print("note: %d violations beyond the %d classified witnesses were not individually classified" % (rec.n_violations - n_kept, n_kept))
+    else:
+        # witnesses are bounded per mechanism; the per-mechanism counters cover every violation
+        stray = {k: v for k, v in rec.key_counts.items() if k not in known}
+        if stray:
+            print("VIOLATION property=%s replay=(witness not retained: %r)" % (pid, stray))
+            exit_code = 1
 
     if exit_code == 0 and rec.evaluations == 0:
         rec.inconc("no evaluations")
@@ -221,7 +225,7 @@ def main(argv=None):
         "samples": rec.samples[:8] or ["(none)"],
         "counters": {k: int(v) for k, v in sorted(rec.counters.items())},
         "shards": len(specs),
-        "known_findings_reobserved": {k: len(v) for k, v in seen_known.items()},
+        "known_findings_reobserved": {k: int(rec.key_counts.get(k, len(v))) for k, v in seen_known.items()},
         "unlisted_violations": len(unlisted),
         "inconclusive": rec.inconclusive,
         "tree": tree_identity(getattr(mod, "ANCHOR_FILES", ())),
